@@ -189,7 +189,17 @@ ChildOutcome run_in_child(const PropModule &m, const Plan &p, int timeout_s) {
     }
     close(fds[1]);
     std::string txt; char buf[4096]; ssize_t n;
-    while ((n = read(fds[0], buf, sizeof buf)) > 0) { txt.append(buf, (size_t) n); }
+    // read with a hard deadline enforced from outside (see run_batch): timeout_s + 45 s
+    double t_end = now_s() + timeout_s + 45.0; bool killed = false;
+    for (;;) {
+        pollfd pfd = { fds[0], POLLIN, 0 };
+        int pr = poll(&pfd, 1, 1000);
+        if (pr > 0) { n = read(fds[0], buf, sizeof buf); if (n > 0) { txt.append(buf, (size_t) n); continue; } break; }
+        if (now_s() > t_end && !killed) {
+            FILE *ef = fopen(errpath.c_str(), "a"); if (ef) { fprintf(ef, "\nVSIM-HANG hard timeout (killed by the driver)\n"); fclose(ef); }
+            kill(pid, SIGKILL); killed = true;
+        }
+    }
     close(fds[0]);
     int status = 0; waitpid(pid, &status, 0);
     out.status = status;
@@ -295,7 +305,7 @@ static Plan minimise(const PropModule &m, Plan p, const std::string &cls, double
 //   "R <index> <nbytes>\n<result>"     finished
 //   "P <index> <nbytes>\n<plan json>"  plan text (for samples and violations)
 //   "D <index> <0|1>\n"                determinism re-run result (1 = equal)
-struct WorkerState { pid_t pid = -1; int fd = -1; std::string buf; int64_t cur = -1; int id = 0; std::string errpath; bool done = false; uint64_t next_start = 0; };
+struct WorkerState { pid_t pid = -1; int fd = -1; std::string buf; int64_t cur = -1; int id = 0; std::string errpath; bool done = false; uint64_t next_start = 0; double cur_since = 0; bool hard_killed = false; };
 
 struct BatchCfg { const PropModule *m; int tier; uint64_t seed; uint64_t nruns; double deadline; int workers; uint64_t det_every; size_t nfixed; };
 
@@ -333,6 +343,7 @@ static void worker_main(const BatchCfg &b, const std::vector<Plan> &fixed, int w
 }
 
 static void spawn_worker(WorkerState &w, const BatchCfg &b, const std::vector<Plan> &fixed, uint64_t start) {
+    w.hard_killed = false; w.cur = -1; w.cur_since = now_s();
     int fds[2];
     if (pipe(fds) < 0) { perror("pipe"); exit(2); }
     w.errpath = tmp_dir() + "/worker." + std::to_string(getpid()) + "." + std::to_string(w.id) + ".err";
@@ -386,6 +397,12 @@ static void run_batch(const BatchCfg &b, const std::vector<Plan> &fixed, BatchSt
         poll(pf.data(), (nfds_t) pf.size(), 1000);
         for (auto &w : ws) {
             if (w.done) { continue; }
+            // hard timeout, enforced from outside: the in-process watchdog (SIGALRM) cannot interrupt a run whose threads are all blocked in a
+            // futex under ThreadSanitizer (signals are delivered at synchronisation points only)
+            if (w.cur >= 0 && !w.hard_killed && now_s() - w.cur_since > 75.0) {
+                FILE *ef = fopen(w.errpath.c_str(), "a"); if (ef) { fprintf(ef, "\nVSIM-HANG hard timeout: run %lld made no progress for 75 s (killed by the driver)\n", (long long) w.cur); fclose(ef); }
+                kill(w.pid, SIGKILL); w.hard_killed = true;
+            }
             bool readable = false, hup = false;
             for (auto &p : pf) { if (p.fd == w.fd) { readable = p.revents & POLLIN; hup = p.revents & (POLLHUP | POLLERR); } }
             if (!readable && !hup) { continue; }
@@ -399,7 +416,7 @@ static void run_batch(const BatchCfg &b, const std::vector<Plan> &fixed, BatchSt
                 if (head == "E") { w.buf.erase(0, nl + 1); w.cur = -1; continue; }
                 char tag = head[0];
                 std::istringstream hs(head.substr(1)); uint64_t idx = 0; size_t len = 0; hs >> idx;
-                if (tag == 'B') { w.cur = (int64_t) idx; w.buf.erase(0, nl + 1); continue; }
+                if (tag == 'B') { w.cur = (int64_t) idx; w.cur_since = now_s(); w.buf.erase(0, nl + 1); continue; }
                 if (tag == 'D') { int okv = 0; hs >> okv; st.det_checked++; if (!okv) { st.det_mismatch++; } w.buf.erase(0, nl + 1); continue; }
                 hs >> len;
                 if (w.buf.size() < nl + 1 + len) { break; }
